@@ -273,16 +273,19 @@ def exec_linsolve(case):
     nontrivial_matrix = not cls['diagonal']
 
     axes = case.get('axes', {})
-    for shape in axes.get('shape', lm.RHS_SHAPES):
-        b = lm.rhs(n, shape, cplx_rhs, t)
-        b2 = lm.rhs(n, shape, cplx_rhs, t, off=467)
+    for shape, rscale in [(sh, rs) for sh in axes.get('shape', lm.RHS_SHAPES) for rs in axes.get('rscale', [1.0])]:
+        # rscale: magnitude of the right-hand side (a linear system is solved as well for loads of order 1e-9)
+        b = lm.rhs(n, shape, cplx_rhs, t) * rscale
+        b2 = lm.rhs(n, shape, cplx_rhs, t, off=467) * rscale
         for solver in solver_names(cls, storage):
             for lda in axes.get('lda', [True, False]):
                 for flags in axes.get('flags', ['none', 'given']):
-                    point = {'shape': shape, 'solver': solver, 'lda': lda, 'flags': flags}
+                    point = {'shape': shape, 'solver': solver, 'lda': lda, 'flags': flags, 'rscale': rscale}
                     if not matches(only, **point):
                         continue
                     sig = {'module': 'LinSolve', 'solver': solver, 'lda': lda, 'matrix': label}
+                    if rscale != 1.0:
+                        sig['rhs_magnitude'] = f'{rscale:g}'
                     inst, counter = make_solver(solver, cls)
                     kw = flag_kwargs(flags, cls)
                     if inst is not None:
@@ -302,7 +305,8 @@ def exec_linsolve(case):
                         return {'skipped': 'documented non-support: real sparse matrix with complex right-hand side',
                                 'outcome': f'real-sparse/complex-rhs: {tag}'}
                     acc.points += 1
-                    acc.keys.append(f"ls|{case['mat']}|{n}|{t}|{storage}|{case['rdt']}|{shape}|{solver}|{lda}|{flags}")
+                    acc.keys.append(f"ls|{case['mat']}|{n}|{t}|{storage}|{case['rdt']}|{shape}|{solver}|{lda}|{flags}"
+                                    f"|{rscale:g}")
                     acc.nontrivial += nontrivial_matrix
                     run_linsolve_point(acc, m, sA, sb, A, b, b2, cls, sig, point, solver, lda, counter)
     return acc.result()
@@ -331,7 +335,8 @@ def run_linsolve_point(acc, m, sA, sb, A, b, b2, cls, sig, point, solver, lda, c
             acc.violation('linsolve_shape', dict(sig, step=step), point, got=list(x.shape), want=list(rhs_now.shape))
             acc.outcomes.add('shape')
             return
-        ok, det = judge_solution(acc, A, x, rhs_now, solver, lda)
+        rs = point.get('rscale', 1.0)      # judged in units of the right-hand side's magnitude
+        ok, det = judge_solution(acc, A, x / rs, rhs_now / rs, solver, lda)
         if not ok:
             mg = mag(det.get('err', det.get('rel_residual', 0)) / max(maxabs(rhs_now), 1e-300))
             acc.violation('linsolve_residual', dict(sig, step=step), point, matrix=A, rhs=rhs_now, x=x,
@@ -356,8 +361,8 @@ def run_linsolve_point(acc, m, sA, sb, A, b, b2, cls, sig, point, solver, lda, c
                     acc.outcomes.add('override_not_used')
                     return
         if step == 'repeat' and not iterative(solver):
-            err, _ = alg_err(x, x_first)
-            ok, bound = check_alg(acc, err, maxabs(x_first) * max(1.0, cls['cond']))
+            err, _ = alg_err(x / rs, x_first / rs)
+            ok, bound = check_alg(acc, err, maxabs(x_first / rs) * max(1.0, cls['cond']))
             if not ok:
                 acc.violation('repeat_differs', dict(sig), point, first=x_first, second=x, err=err, bound=bound)
                 acc.outcomes.add('repeat_differs')
@@ -432,11 +437,13 @@ def exec_inverse(case):
 # ----------------------------------------------------------------------------------------------------------------------
 SOE_GIVEN = ['free', 'prescribed', 'both']
 SOE_KW = ['auto', 'splu', 'flags']
-ORDERS = ['asc', 'desc']
+ORDERS = ['asc', 'desc', 'rot']
 
 
 def ordered(idx, order):
     idx = sorted(idx)
+    if order == 'rot':     # neither ascending nor descending (for three or more indices)
+        idx = idx[1:] + idx[:1]
     return np.array(idx[::-1] if order == 'desc' else idx, dtype=int)
 
 
@@ -498,6 +505,8 @@ def exec_soe(case):
         for order in axes.get('order', ORDERS):
             if order == 'desc' and len(f_set) < 2 and len(p_set) < 2:
                 continue
+            if order == 'rot' and len(f_set) < 3 and len(p_set) < 3:
+                continue   # equals asc or desc
             f_idx = ordered(f_set, order)
             # indices that are not handed over are reconstructed by the module as the sorted complement
             p_idx = ordered(p_set, order if given in ('prescribed', 'both') else 'asc')
@@ -666,6 +675,8 @@ def exec_sc(case):
     for order in axes.get('order', ORDERS):
         if order == 'desc' and len(m_set) < 2 and len(f_set) < 2:
             continue
+        if order == 'rot' and len(m_set) < 3 and len(f_set) < 3:
+            continue
         m_idx, f_idx = ordered(m_set, order), ordered(f_set, order)
         S_ref = lm.schur(A, m_idx, f_idx)
         scale_S = max(maxabs(lm.sub(A, m_idx, m_idx)),
@@ -816,8 +827,8 @@ QUICK_PART_FAMILIES = ['gen', 'symind', 'spd', 'cgen', 'hpd', 'hind', 'csym', 'l
                        'bccol', 'gperm', 'symzd']
 QUICK_N5_FAMILIES = ['gen', 'spd', 'cgen', 'bcrow']
 SOE_AXES_QUICK = {'given': SOE_GIVEN, 'order': ['asc'], 'shape': ['vec', 'blk'], 'kw': ['auto']}
-SOE_AXES_QUICK_DESC = {'given': ['both'], 'order': ['desc'], 'shape': ['vec'], 'kw': ['auto']}
-LS_AXES_FULL = {'shape': lm.RHS_SHAPES, 'lda': [True, False], 'flags': ['none', 'given']}
+SOE_AXES_QUICK_DESC = {'given': SOE_GIVEN, 'order': ['desc', 'rot'], 'shape': ['vec'], 'kw': ['auto']}
+LS_AXES_FULL = {'shape': lm.RHS_SHAPES, 'lda': [True, False], 'flags': ['none', 'given'], 'rscale': [1.0, 1e-9]}
 LS_AXES_QUICK_PATTERNS = {'shape': lm.RHS_SHAPES, 'lda': [True], 'flags': ['none', 'given']}
 SOE_AXES_QUICK_KW = {'given': ['free'], 'order': ['asc'], 'shape': ['col'], 'kw': ['splu', 'flags']}
 SOE_AXES_FULL = {'given': SOE_GIVEN, 'order': ORDERS, 'shape': lm.RHS_SHAPES, 'kw': SOE_KW}
